@@ -142,7 +142,7 @@ OUTCOMES = [
     ("servfail", 5), ("refused", 2), ("notimp", 1), ("rcode9", 1), ("formerr_rcode", 1),
     ("exc_formerror", 2), ("exc_eof", 2), ("exc_oserror", 2), ("exc_notimpl", 1), ("timeout", 5),
     ("truncated", 4), ("truncated_always", 1), ("not_response", 1), ("slow", 2), ("exc_badresponse", 1),
-    ("cname_loop", 1), ("two_questions", 1),
+    ("cname_loop", 1), ("two_questions", 1), ("exc_valueerror", 2),
 ]
 
 
@@ -258,6 +258,9 @@ def build_response(request, o, idx, tcp):
         return OSError(111, "scripted")
     if k == "exc_notimpl":
         return NotImplementedError("scripted")
+    if k == "exc_valueerror":
+        # an error of no particular family (what the DoH transport raises for a non-2xx status)
+        return ValueError("scripted: responded with status code 503")
     if k == "timeout":
         return dns.exception.Timeout(timeout=0)
     if k == "truncated_always" or (k == "truncated" and not tcp):
@@ -696,6 +699,8 @@ def model_run(case, res_states=None):
                     if k in ("exc_formerror", "exc_badresponse", "exc_eof", "exc_oserror", "exc_notimpl"):
                         servers.remove(cur)
                         continue
+                    if k == "exc_valueerror":
+                        continue  # any other failure of the attempt: recorded, the server stays in the mix
                     if k == "truncated_always" or (k == "truncated" and not tcp):
                         if tcp:
                             probes.append("truncation_over_tcp")
